@@ -123,7 +123,7 @@ def childrenPhase (c : Cfg) (parent : J) (observed desired : ObjMap) (memo : Mem
 /-- how `compositeAct` ends, given the outcome of the children phase and of the status update -/
 def actResult (x : List String × Memo) (st : Except String J) : Memo × Except Err Unit :=
   match st with
-  | .error "NotFound" | .error "Conflict" => (x.2, .ok ())
+  | .error "NotFound" | .error "Conflict" => if x.1.isEmpty then (x.2, .ok ()) else (x.2, .error (.fail "can't reconcile children"))
   | .error e => (x.2, .error (.fail s!"can't update status: {e}"))
   | .ok _ => if x.1.isEmpty then (x.2, .ok ()) else (x.2, .error (.fail "can't reconcile children"))
 
@@ -135,15 +135,16 @@ theorem C11_after_child_errors (c : Cfg) (parent : J) (observed desired : ObjMap
         Prog.bind (updateParentStatus c parent status) (fun st => .ret (actResult x st))) := by
   have hv : ∀ (x : List String × Memo) (st : Except String J),
       (match st with
-        | .error "NotFound" | .error "Conflict" => (pure (x.2, .ok ()) : Prog (Memo × Except Err Unit))
+        | .error "NotFound" | .error "Conflict" =>
+            (if x.1.isEmpty then pure (x.2, .ok ()) else pure (x.2, .error (.fail "can't reconcile children")) : Prog (Memo × Except Err Unit))
         | .error e => pure (x.2, .error (.fail s!"can't update status: {e}"))
         | .ok _ => if x.1.isEmpty then pure (x.2, .ok ()) else pure (x.2, .error (.fail "can't reconcile children")))
       = .ret (actResult x st) := by
     intro x st
     unfold actResult
     split
-    · rfl
-    · rfl
+    · split <;> rfl
+    · split <;> rfl
     · rfl
     · split <;> rfl
   unfold compositeAct childrenPhase
